@@ -277,6 +277,8 @@ def new_value(old, rng, reshape):
                 "dict": {"U235": rng.random(), "k": [1, 2]}, "str": "s%d" % rng.randint(0, 99), "int": rng.randint(1, 9)}[k]
     if isinstance(old, bool):
         return not old
+    if isinstance(old, (float, np.floating, np.ndarray, list, dict)) and not (isinstance(old, np.ndarray) and old.dtype.kind not in "fiu") and rng.random() < 0.06:
+        return None  # the property's parameter kind `None`: a value is REPLACED BY None inside the scope (and must come back)
     if isinstance(old, (int, np.integer)):
         return int(old) + rng.randint(1, 5)
     if isinstance(old, (float, np.floating)):
